@@ -1,11 +1,14 @@
-(* C16 - Logging is faithful and does not perturb the machine. Theorems only. strip s = s with the logger detached and the logger's records erased from the trace; log_blind orc orc' = the callbacks orc' under logging behave as orc on the trace without logger records (callbacks cannot see the logger's records). *)
+(* C16 - Logging is faithful and does not perturb the machine. Theorems only. strip s = s with the logger detached and
+   the logger's records erased from the trace; log_blind orc orc' = the callbacks orc' under logging behave as orc on
+   the trace without logger records (callbacks cannot see the logger's records). *)
 From Coq Require Import List Arith Bool NArith.
 From FFSM2 Require Import Model.TaskList Model.BitArray Model.BitStream Model.Plan Model.Ancestors Model.Machine
   Proofs.BitArrayProofs Proofs.MachineFrame Proofs.MachinePlan Proofs.MachineLife Proofs.GuardProofs Proofs.CycleProofs Proofs.PlanStep
-  Proofs.SerialProofs Proofs.LogProofs Proofs.MachineTop.
+  Proofs.SerialProofs Proofs.LogProofs Proofs.MachineTop Model.Multi Generated.InitFacts Proofs.ConstructProofs Proofs.LifeMonitor Proofs.ActivationRounds Proofs.IndexSafety Proofs.FeatureProofs.
 Import ListNotations.
 
-(* for every history: running with a logger attached at any point(s) and then forgetting the records equals running without any logger: same callbacks, same order, same actions and results, same final core *)
+(* for every history: running with a logger attached at any point(s) and then forgetting the records equals running
+   without any logger: same callbacks, same order, same actions and results, same final core *)
 Theorem C16_log_transparent :
   forall (P : Type) (cfg : config) (orc orc' : oracle P),
          log_blind P orc orc' ->
@@ -61,7 +64,8 @@ Theorem C16_one_step :
 Proof. exact (step_log_transparent). Qed.
 Print Assumptions C16_one_step.
 
-(* faithfulness: with a logger attached, a delivery whose method is logged appends its method record first, before any user code of that delivery runs, and nothing but callbacks of that very (state, method) follow in the delivery *)
+(* faithfulness: with a logger attached, a delivery whose method is logged appends its method record first, before any
+   user code of that delivery runs, and nothing but callbacks of that very (state, method) follow in the delivery *)
 Theorem C16_method_record_first :
   forall (P : Type) (cfg : config) (orc : oracle P) (w : who) (m : method) (s : mstate P) (k : ctl P),
          logging P cfg s = true ->
@@ -80,7 +84,8 @@ Theorem C16_no_record_otherwise :
 Proof. exact (deliver_log_silent). Qed.
 Print Assumptions C16_no_record_otherwise.
 
-(* each permitted changeTo/changeWith emits exactly one transition record (caller, destination), each cancellation one cancellation record, each succeed/fail one task-status record; refused and other actions emit nothing *)
+(* each permitted changeTo/changeWith emits exactly one transition record (caller, destination), each cancellation one
+   cancellation record, each succeed/fail one task-status record; refused and other actions emit nothing *)
 Theorem C16_action_records :
   forall (P : Type) (cfg : config) (origin : nat) (a : action P) (s : mstate P) (k : ctl P),
          tr P (fst (fst (perform P cfg origin a (s, k)))) =
